@@ -119,6 +119,49 @@ def mc_walk(name, cfg, consts=None, workers=8, threads=8, trace_every=0, timeout
     return {"name": name, "tlc": st, "walk": w, "violations": viols, "trace": trace}
 
 
+def mc_sim(name, cfg, consts, num, depth, seed, workers=4, threads=8, timeout=1500):
+    """Random walks of the model (tlc -simulate) piped into `mv walk`.  The breadth-first search replays every
+    transition once, from the SHORTEST history that reaches its source state; a random walk reaches the same
+    states through long histories with detours (write a stream and remove it again, save twice, ...), which is
+    where behaviour that depends on more than the modelled state shows."""
+    ensure_dirs()
+    c = {"MaxCols": 32, "MaxRows": 65536, "RcCap": 2, "MaxRefs": 65535, "Strategy": "ff", "asis": "{}", "emptylive": "FALSE"}
+    c.update(consts or {})
+    cfgpath = os.path.join(OUT, "cfg", "MC_%s.cfg" % name)
+    with open(cfgpath, "w") as f:
+        f.write(MC_TEMPLATE.format(cfg=cfg, extra="ACTION_CONSTRAINT Emit", **c))
+    meta = os.path.join(OUT, "tlc", name)
+    shutil.rmtree(meta, ignore_errors=True)
+    tlclog = os.path.join(OUT, "tlc", name + ".log")
+    viol = os.path.join(OUT, "tlc", name + ".viol")
+    tlc = ["timeout", str(timeout), "tlc", "-workers", str(workers), "-simulate", "num=%d" % num, "-depth", str(depth), "-seed", str(seed),
+           "-metadir", meta, "-cleanup", "-noGenerateSpecTE", "-config", cfgpath, "MC_Msi.tla"]
+    t0 = time.time()
+    p1 = subprocess.Popen(tlc, cwd=SPEC, stdout=subprocess.PIPE, stderr=subprocess.STDOUT)
+    p2 = subprocess.Popen([MV, "walk", "--threads", str(threads), "--tlc-log", tlclog, "--viol", viol, "--max-viol", "200"], stdin=p1.stdout, stdout=subprocess.PIPE, text=True)
+    p1.stdout.close()
+    out, _ = p2.communicate()
+    rc1 = p1.wait()
+    shutil.rmtree(meta, ignore_errors=True)
+    tlctext = open(tlclog).read() if os.path.exists(tlclog) else ""
+    if rc1 == 124:
+        raise ToolError("TLC simulation timed out on %s" % name)
+    m = re.search(r"(\d+) states checked, (\d+) traces generated \(trace length: mean=(\d+)", tlctext)
+    errs = [l for l in tlctext.splitlines() if l.startswith("Error:")]
+    if errs or not m:
+        sys.stderr.write(tlctext[-3000:])
+        raise ToolError("TLC simulation failed on %s: %s" % (name, errs[:3]))
+    w = None
+    for l in out.splitlines():
+        if l.startswith("WALK "):
+            w = json.loads(l[5:])
+    if w is None or w["edges"] == 0:
+        raise ToolError("simulation walk produced nothing")
+    viols = [json.loads(l) for l in open(viol)] if os.path.exists(viol) else []
+    return {"name": name, "tlc": {"simulation": True, "states_checked": int(m.group(1)), "traces": int(m.group(2)), "mean_length": int(m.group(3)), "seed": seed, "wall_s": round(time.time() - t0, 1)},
+            "walk": w, "violations": viols}
+
+
 def mc_pipe(name, module, cfgtext, driver_args, summary_tag, workers=10, timeout=1500, expect_cases=None):
     """Runs TLC on a stateless enumeration module whose ACTION_CONSTRAINT prints one case per
     transition and pipes the cases into a harness driver.  Returns TLC stats, driver summary,
